@@ -11,6 +11,7 @@ import (
 	"sort"
 	"strconv"
 	"strings"
+	"sync"
 	"time"
 )
 
@@ -140,9 +141,14 @@ func cmdCheck(args []string) int {
 	replays := 0
 	canaryOK := 0
 	canaries := 0
+	type item struct {
+		r      *JobResult
+		v      *Violation
+		canary bool
+	}
+	var items []item
 	for _, r := range results {
 		undecided = append(undecided, prefixAll(r.Job.Name+": ", r.Undecided)...)
-		// group by key, take first of each
 		seen := map[string]*Violation{}
 		var keys []string
 		for _, v := range r.Violations {
@@ -156,20 +162,9 @@ func cmdCheck(args []string) int {
 			canaries++
 			found := false
 			for _, k := range keys {
-				v := seen[k]
-				if v.Label == r.Job.Canary {
+				if seen[k].Label == r.Job.Canary {
 					found = true
-					if *noReplay {
-						canaryOK++
-						break
-					}
-					out, ok := nativeReplay(v)
-					replays++
-					if ok {
-						canaryOK++
-					} else {
-						undecided = append(undecided, fmt.Sprintf("%s: canary %s found but did not replay natively (%s)", r.Job.Name, v.Label, out))
-					}
+					items = append(items, item{r, seen[k], true})
 					break
 				}
 			}
@@ -186,23 +181,42 @@ func cmdCheck(args []string) int {
 				knownLines = append(knownLines, fmt.Sprintf("KNOWN-FINDING: property=%s %s [%s|%s]", id, kf.What, v.Label, v.Scenario))
 				continue
 			}
-			path := saveReplay(v)
-			if *noReplay {
-				fmt.Printf("CANDIDATE property=%s label=%s scenario=%s job=%s replay=%s (not replayed)\n", id, v.Label, v.Scenario, v.Job, path)
-				confirmed = append(confirmed, v)
-				exit = 1
-				continue
-			}
-			out, ok := nativeReplay(v)
-			replays++
-			if ok {
-				confirmed = append(confirmed, v)
-				fmt.Printf("VIOLATION property=%s replay=%s label=%s scenario=%q job=%s native=%q\n", id, path, v.Label, v.Scenario, v.Job, out)
-				exit = 1
+			items = append(items, item{r, v, false})
+		}
+	}
+	rr := map[*Violation]replayRes{}
+	if !*noReplay {
+		var vs []*Violation
+		for _, it := range items {
+			vs = append(vs, it.v)
+		}
+		rr = replayAll(vs)
+		replays = len(vs)
+	}
+	for _, it := range items {
+		v := it.v
+		if it.canary {
+			if *noReplay || rr[v].ok {
+				canaryOK++
 			} else {
-				fmt.Printf("ENGINE-MISMATCH property=%s label=%s job=%s replay=%s native=%q\n", id, v.Label, v.Job, path, out)
-				undecided = append(undecided, fmt.Sprintf("%s: counterexample for %s did not reproduce natively (%s)", r.Job.Name, v.Label, out))
+				undecided = append(undecided, fmt.Sprintf("%s: canary %s found but did not replay natively (%s)", it.r.Job.Name, v.Label, rr[v].out))
 			}
+			continue
+		}
+		path := saveReplay(v)
+		if *noReplay {
+			fmt.Printf("CANDIDATE property=%s label=%s scenario=%s job=%s replay=%s (not replayed)\n", id, v.Label, v.Scenario, v.Job, path)
+			confirmed = append(confirmed, v)
+			exit = 1
+			continue
+		}
+		if rr[v].ok {
+			confirmed = append(confirmed, v)
+			fmt.Printf("VIOLATION property=%s replay=%s label=%s scenario=%q job=%s native=%q\n", id, path, v.Label, v.Scenario, v.Job, rr[v].out)
+			exit = 1
+		} else {
+			fmt.Printf("ENGINE-MISMATCH property=%s label=%s job=%s replay=%s native=%q\n", id, v.Label, v.Job, path, rr[v].out)
+			undecided = append(undecided, fmt.Sprintf("%s: counterexample for %s did not reproduce natively (%s)", it.r.Job.Name, v.Label, rr[v].out))
 		}
 	}
 	for _, l := range uniq(knownLines) {
@@ -264,15 +278,27 @@ func saveReplay(v *Violation) string {
 	return p
 }
 
-// nativeReplay runs the counterexample against the real build (go test -overlay) and reports whether it reproduces.
-func nativeReplay(v *Violation) (string, bool) {
+var (
+	testBinMu  sync.Mutex
+	testBins   = map[string]string{}
+	testBinErr = map[string]string{}
+)
+
+// ensureTestBin builds (once per process and package) the test binary that contains the harnesses, the
+// native harness runtime and the environment overlays, from /repo's current working tree.
+func ensureTestBin(pkg string) (string, string) {
+	testBinMu.Lock()
+	defer testBinMu.Unlock()
+	if b, ok := testBins[pkg]; ok {
+		return b, testBinErr[pkg]
+	}
 	_, real, err := harnessOverlay(true)
 	if err != nil {
-		return err.Error(), false
+		testBins[pkg], testBinErr[pkg] = "", err.Error()
+		return "", err.Error()
 	}
-	dir := filepath.Join(scratchDir(), fmt.Sprintf("replay%d", time.Now().UnixNano()))
+	dir := filepath.Join(scratchDir(), "replaybin", sanitize(pkg))
 	os.MkdirAll(dir, 0o755)
-	defer os.RemoveAll(dir)
 	// environment overlays: table-driven hasher and replayed random numbers (same contracts as the engine stubs)
 	real[filepath.Join(repoDir, "internal/xruntime/hasher.go")] = filepath.Join(verifDir, "harness/rt/xruntime_hasher_replay.go.txt")
 	if src, err := os.ReadFile(filepath.Join(repoDir, "internal/xruntime/xruntime.go")); err == nil && strings.Contains(string(src), "return rand.Uint32()") {
@@ -281,19 +307,41 @@ func nativeReplay(v *Violation) (string, bool) {
 		os.WriteFile(rp, []byte(mod), 0o644)
 		real[filepath.Join(repoDir, "internal/xruntime/xruntime.go")] = rp
 	}
-	ovJSON := map[string]map[string]string{"Replace": real}
-	b, _ := json.Marshal(ovJSON)
+	b, _ := json.Marshal(map[string]map[string]string{"Replace": real})
 	ovPath := filepath.Join(dir, "overlay.json")
 	os.WriteFile(ovPath, b, 0o644)
+	rel := strings.TrimPrefix(strings.TrimPrefix(pkg, repoModule), "/")
+	if rel == "" {
+		rel = "."
+	}
+	bin := filepath.Join(dir, "replay.test")
+	cmd := exec.Command("go", "test", "-c", "-vet=off", "-overlay", ovPath, "-o", bin, "./"+rel)
+	cmd.Dir = repoDir
+	cmd.Env = goEnv()
+	out, err := cmd.CombinedOutput()
+	if err != nil {
+		testBins[pkg], testBinErr[pkg] = "", "build failed: "+firstLine(string(out))
+		return "", testBinErr[pkg]
+	}
+	testBins[pkg] = bin
+	return bin, ""
+}
+
+// nativeReplay runs the counterexample against the real build and reports whether it reproduces.
+func nativeReplay(v *Violation) (string, bool) {
+	bin, berr := ensureTestBin(v.Pkg)
+	if bin == "" {
+		return berr, false
+	}
+	dir := filepath.Join(scratchDir(), fmt.Sprintf("replay%d", time.Now().UnixNano()))
+	os.MkdirAll(dir, 0o755)
+	defer os.RemoveAll(dir)
 	rb, _ := json.Marshal(v)
 	rp := filepath.Join(dir, "replay.json")
 	os.WriteFile(rp, rb, 0o644)
 	rel := strings.TrimPrefix(strings.TrimPrefix(v.Pkg, repoModule), "/")
-	if rel == "" {
-		rel = "."
-	}
-	cmd := exec.Command("go", "test", "-v", "-vet=off", "-count=1", "-run", "^TestZZReplay$", "-overlay", ovPath, "-timeout", "120s", "./"+rel)
-	cmd.Dir = repoDir
+	cmd := exec.Command(bin, "-test.run", "^TestZZReplay$", "-test.v", "-test.timeout", "120s")
+	cmd.Dir = filepath.Join(repoDir, rel)
 	cmd.Env = append(goEnv(), "VERIF_REPLAY="+rp)
 	out, _ := cmd.CombinedOutput()
 	txt := string(out)
@@ -304,7 +352,7 @@ func nativeReplay(v *Violation) (string, bool) {
 		}
 	}
 	if line == "" {
-		// crashed (e.g. a panic on another goroutine) or build failure
+		// crashed (e.g. a panic on another goroutine)
 		if strings.Contains(txt, "zzAssertFailure") {
 			i := strings.Index(txt, "zzAssertFailure")
 			line = "ZZ-REPLAY-ASSERT(goroutine) " + firstLine(txt[i:])
@@ -326,6 +374,33 @@ func nativeReplay(v *Violation) (string, bool) {
 		return line, strings.HasPrefix(line, "ZZ-REPLAY-HANG")
 	}
 	return line, false
+}
+
+type replayRes struct {
+	out string
+	ok  bool
+}
+
+// replayAll replays the given counterexamples natively, in parallel.
+func replayAll(vs []*Violation) map[*Violation]replayRes {
+	res := map[*Violation]replayRes{}
+	var mu sync.Mutex
+	var wg sync.WaitGroup
+	sem := make(chan struct{}, 8)
+	for _, v := range vs {
+		wg.Add(1)
+		go func() {
+			defer wg.Done()
+			sem <- struct{}{}
+			defer func() { <-sem }()
+			out, ok := nativeReplay(v)
+			mu.Lock()
+			res[v] = replayRes{out, ok}
+			mu.Unlock()
+		}()
+	}
+	wg.Wait()
+	return res
 }
 
 func firstLine(s string) string {
